@@ -450,6 +450,16 @@ def _mirsym():
             stubs=["capnp generated accessors -> record model driven by locustdb-serialization/schemas/wal_segment.capnp", "capnp::serialize_packed::{write_message,read_message} -> identity on the record tree", "HashMap<String,V> -> association list"],
             assumptions=["capnpc-generated accessors and the capnp runtime implement the record semantics of vlib/mirsym/capnp_model.py; serialize_packed is lossless"])
 
+    from .specs import metacodec as smc
+    for pid, tag in (("C14", "C14.d"), ("C08", "C08.d")):
+        add(f"{tag}/metastore_roundtrip", pid, "mirsym", Q,
+            "MetaStore::serialize then MetaStore::deserialize (the catalogue file): the replay cursor read back is earliest_unflushed_wal_id (and next_wal_id restarts there), every partition entry comes back under its table and id with offset, len and its sub-partition files (key, last column, size, not loaded), and the last-column routing map is rebuilt consistently",
+            ["disk_store::meta_store::MetaStore::{serialize,deserialize} (+ closures)"],
+            bounds="5 (quick) / 6 (thorough) catalogue shapes: 0-2 tables, 1-2 partitions per table, 0-3 sub-partition files per partition; cursor values, partition ids (distinct within a table), offsets, lengths and sizes symbolic, names fixed; capnp modelled from schemas/dbmeta.capnp (legacy v0-v2 column lists stay at their empty defaults), HashMap as association list, BTreeMap as sorted association list, SimpleTracer stubbed",
+            spec=smc.MetaStoreCodecSpec(),
+            stubs=["capnp generated accessors -> record model driven by locustdb-serialization/schemas/dbmeta.capnp", "capnp::serialize_packed::{write_message,read_message} -> identity on the record tree", "SimpleTracer::{start_span,end_span,annotate} -> no-op", "HashMap / BTreeMap -> association lists"],
+            assumptions=["capnpc-generated accessors and the capnp runtime implement the record semantics of vlib/mirsym/capnp_model.py; serialize_packed is lossless"])
+
 
 _mirsym()
 
